@@ -1,5 +1,6 @@
 import SigmaVerif.Gen.B64
 import SigmaVerif.Model.B64
+import SigmaVerif.Props.C04
 /-! Obligations tying `SigmaBase64OffsetModifier` as it is *now* to the hypotheses of the C04
 theorems. -/
 namespace SigmaVerif.Oblig.C04
@@ -15,5 +16,15 @@ theorem gen_len_is_bytes : SigmaVerif.Gen.B64.lenIsBytes = true := by decide
 
 /-- the filler in front of the payload is a single byte (any byte works: `b64offset_payload_only`) -/
 theorem gen_pad_single : SigmaVerif.Gen.B64.pad.length = 1 := by decide
+
+/-- C04 completeness instantiated at the tables the code has *now* -/
+theorem gen_b64offset_complete (p v s : List Byte) :
+    (b64offsetAt SigmaVerif.Gen.B64.tables v.length v (p.length % 3)) <:+: b64 (p ++ v ++ s) :=
+  SigmaVerif.Props.C04.b64offset_complete _ gen_tables_sound p v s
+
+/-- … and the produced values consist of payload bits only -/
+theorem gen_b64offset_payload_only (v : List Byte) (i : Nat) (hi : i < 3) :
+    '=' ∉ b64offsetAt SigmaVerif.Gen.B64.tables v.length v i :=
+  SigmaVerif.Props.C04.b64offset_payload_only _ gen_tables_sound v i hi
 
 end SigmaVerif.Oblig.C04
